@@ -38,7 +38,10 @@ def wrapper_cls(builder):
     if a refactoring renames it - the dialect-specific literal form is then simply not exercised at that position)"""
     from pypika_tortoise.terms import ValueWrapper
 
-    return builder.__dict__.get("_wrapper_cls") or getattr(builder, "wrapper_cls", None) or ValueWrapper
+    for v in vars(builder).values():     # whatever the attribute is called: the ValueWrapper subclass the builder holds
+        if isinstance(v, type) and issubclass(v, ValueWrapper):
+            return v
+    return ValueWrapper
 
 
 def empty_builder(Q, **kwargs):
